@@ -218,6 +218,14 @@ def check_c18(prop, tier, seed):
             v.tool_error('Stats deviation %s not detected' % d)
         else:
             v.extra.setdefault('model_negative_control', []).append('%s violates %s' % (d, r2.invariant_violated))
+    # counters of any size, histories of any length: the three invariants (with the types) are inductive for the design
+    # (Apalache, symbolic); they are not when COPY is counted twice
+    for name, cinit, init, length, expect in (('initial', 'ConstInit', 'Init', 0, 'ok'), ('step', 'ConstInit', 'IndInit', 1, 'ok'),
+                                              ('negative_control_copy_twice', 'ConstInitCopyTwice', 'IndInit', 1, 'violated')):
+        got = tlc.run_apalache('StatsApa', cinit, init, 'IndInv', length, timeout=900)
+        v.extra.setdefault('apalache_inductive_invariant', []).append({'check': name, 'result': got})
+        if got != expect:
+            v.tool_error('Apalache %s: expected %s, got %s' % (name, expect, got))
     n = {'quick': 220, 'thorough': 4000}[tier]
     res = tlc.run_tlc('Gen_Stats', 'Gen_Stats.cfg', workers=1, simulate=n * 3, depth=11, seed=seed, timeout=900)
     if res.rc != 0:
